@@ -28,7 +28,7 @@ ASSUMPTIONS = ["ONGRID: stream temperatures and contributions are multiples of 1
                "stream duties are non-negative (schema)"]
 
 
-def mk_streams(h, m, prefix="s", cp_values=None):
+def mk_streams(h, m, prefix="s", cp_values=None, kinds=("hot", "cold", "latent")):
     """m process streams built by the real constructor from symbolic (t_supply, t_target, heat_flow, dt_cont).
 
     The duty is parametrised as cp * span with cp > 0 symbolic (every positive duty is of that form), which keeps the
@@ -45,17 +45,24 @@ def mk_streams(h, m, prefix="s", cp_values=None):
             # heat-capacity flow rate drawn from a small concrete set: every obligation is then linear real arithmetic
             cp = h.choice(f"{prefix}{i}_cpv", list(cp_values))
         dt = h.real(f"{prefix}{i}_dt", lo=0, grid=6)
-        d = h.choice(f"{prefix}{i}_dir", ["hot", "cold", "latent"])
+        d = h.choice(f"{prefix}{i}_dir", list(kinds))
         if d == "hot":
             h.assume(ts > tt)
             q = cp * (ts - tt)
         elif d == "cold":
             h.assume(ts < tt)
             q = cp * (tt - ts)
-        else:
+        elif d == "latent":
             h.assume(ts == tt)
-            q = cp * 0.01
+            q = _exact(h, cp) * 0.01
+        else:
+            # "latent_hot": an isothermal stream whose NEGATIVE duty marks it as a hot (condensing) stream of that magnitude
+            h.assume(ts == tt)
+            q = -(_exact(h, cp) * 0.01)
         s = Stream(f"{prefix}{i}", ts, tt, dt_cont=dt, heat_flow=q, htc=1.0)
+        # what the INPUT means, for the reference cascade (independent of what the constructor stored)
+        s._pvc_kind = HOT if d in ("hot", "latent_hot") else COLD
+        s._pvc_duty = -q if d == "latent_hot" else q
         out.append(s)
     return out
 
@@ -73,6 +80,24 @@ def assume_sep(h, streams, finding="KF-C01-unseparated", star=True):
     if finding is None:
         h.assume(Not(Or(*close)) if close else True)
     return bs
+
+
+def _exact(h, v):
+    """a concrete number as an exact rational term in symbolic mode: sums of concrete duties must not be rounded by float arithmetic
+    inside the harness (0.03 - 0.01 is not 0.02 in floats)"""
+    if h.symbolic and not hasattr(v, "z"):
+        import z3
+        from pvc.sym import SymReal
+        return SymReal(z3.RealVal(repr(float(v))))
+    return v
+
+
+def _duty(s):
+    return getattr(s, "_pvc_duty", s.heat_flow)
+
+
+def _kind(s):
+    return getattr(s, "_pvc_kind", s.type)
 
 
 def split_kinds(streams):
@@ -94,13 +119,13 @@ def reference(streams, star=True):
     def D(T):
         tot = 0.0
         for s in streams:
-            cp = s.heat_flow / (hi(s) - lo(s))
-            tot = tot + (cp * ov(s, T) if s.type == COLD else -cp * ov(s, T))
+            cp = _duty(s) / (hi(s) - lo(s))
+            tot = tot + (cp * ov(s, T) if _kind(s) == COLD else -cp * ov(s, T))
         return tot
     bounds = [b for s in streams for b in (lo(s), hi(s))]
     Qh = smax([0.0] + [D(T) for T in bounds])
-    q_hot = sum([s.heat_flow for s in streams if s.type == HOT], 0.0)
-    q_cold = sum([s.heat_flow for s in streams if s.type == COLD], 0.0)
+    q_hot = sum([_duty(s) for s in streams if _kind(s) == HOT], 0.0)
+    q_cold = sum([_duty(s) for s in streams if _kind(s) == COLD], 0.0)
     Qc = Qh - q_cold + q_hot
     Qr = q_hot - Qc
     return Qh, Qc, Qr, q_hot, q_cold
@@ -118,15 +143,17 @@ def deficit_above(streams, T, star=True):
         ov = hi - base
         if ov < 0:
             ov = 0.0
-        cp = s.heat_flow / (hi - lo)
-        tot = tot + (cp * ov if s.type == COLD else -cp * ov)
+        cp = _duty(s) / (hi - lo)
+        tot = tot + (cp * ov if _kind(s) == COLD else -cp * ov)
     return tot
 
 
-def _ob_slice(mmax, cp_values=None):
+def _ob_slice(mmax, cp_values=None, kinds=("hot", "cold", "latent")):
     def ob(h):
         m = h.choice("streams", list(range(1, mmax + 1)))
-        streams = mk_streams(h, m, cp_values=cp_values)
+        streams = mk_streams(h, m, cp_values=cp_values, kinds=kinds)
+        for st in streams:
+            h.check("stream_is_classified_as_the_input_says", st.type == _kind(st))
         bounds = assume_sep(h, streams)
         hot, cold, allc = split_kinds(streams)
         # modular: the constant-enthalpy projection only inserts rows strictly inside the table (C05.projection.b) and an
@@ -137,8 +164,8 @@ def _ob_slice(mmax, cp_values=None):
         n = len(pt)
         T = [pt.loc[k, PT.T.value] for k in range(n)]
         Hn = [pt.loc[k, PT.H_NET.value] for k in range(n)]
-        q_hot = sum([s.heat_flow for s in streams if s.type == HOT], 0.0)
-        q_cold = sum([s.heat_flow for s in streams if s.type == COLD], 0.0)
+        q_hot = sum([_duty(s) for s in streams if _kind(s) == HOT], 0.0)
+        q_cold = sum([_duty(s) for s in streams if _kind(s) == COLD], 0.0)
         # (0) the grid is exactly the set of shifted stream bounds
         for b in bounds:
             h.check("every_shifted_bound_is_a_row", Or(*[b == t for t in T]))
@@ -220,6 +247,11 @@ def obligations():
                      bound="1..2 streams; every temperature and contribution symbolic, heat-capacity flow rates from {1, 3} kW/K",
                      doc="composed real slice against the property's cascade (linear arithmetic)")
     obs = split(lin, streams=[1]) + split(lin, streams=[2], s0_dir=D, s1_dir=D)
+    K4 = ("latent_hot", "hot", "cold", "latent")
+    lh = Obligation("C01.slice.latent_hot.b", _ob_slice(2, cp_values=(1.0, 3.0), kinds=K4), kind="bounded", functions=fs, max_paths=200000, timeout_ms=30000, stubs=st,
+                    bound="1..2 streams, the first an isothermal stream whose NEGATIVE duty marks it as hot; otherwise as C01.slice.b",
+                    doc="the sign of the duty of an isothermal stream only gives its direction")
+    obs += split(lh, streams=[1], s0_dir=["latent_hot"]) + split(lh, streams=[2], s0_dir=["latent_hot"], s1_dir=list(K4))
     lin3 = Obligation("C01.slice3.b", _ob_slice(3, cp_values=(1.0, 3.0)), kind="bounded", tier="thorough", functions=fs, max_paths=2000000, timeout_ms=30000, stubs=st,
                       bound="3 streams; every temperature and contribution symbolic, heat-capacity flow rates from {1, 3} kW/K")
     obs += split(lin3, streams=[3], s0_dir=D, s1_dir=D, s2_dir=D)
